@@ -1,5 +1,3 @@
-//go:build verif_c13
-
 package harness
 
 import (
@@ -21,8 +19,13 @@ import (
 )
 
 // ---------------------------------------------------------------------------
-// C13: deploy/ — (a) pure helpers run through deploy/verif_export.go,
-// (b) Notary-bootstrap ticks run on an in-process chain (deploy_notary_test.go).
+// C13: deploy/ —
+// (a) pure helpers run through the hook deploy/verif_export.go (this file);
+// (b) Notary bootstrap: the real enableNotary loops and the real tick closures
+//     on an in-process chain (deploy_notary_test.go, deploy_seq_test.go);
+// (c) the public deploy.Deploy run by all members concurrently (deploy_e2e_test.go).
+// All three write Coq cases compared with Model/DeployHelpers.v and
+// Model/DeployProto.v (cases_C13.v, cases_C13_<k>.v).
 
 type c13 struct {
 	t     *testing.T
